@@ -26,7 +26,9 @@ RULE = (
     "the same probe in a freshly forked pristine process; stream purity: gen_program templates (all tags, ~90 filters, "
     "partials) rendered sync and async — a type-exact deep snapshot of the data passed in and a structural dump of the "
     "parsed template must be unchanged, and a second render of the same template object with the same data must give "
-    "the same outcome. Non-trivial: the history contains a render that shares the probe's template, environment or a "
+    "the same outcome; stream purity_filters: every registered filter (default and extra) x 8 input shapes x 8 argument "
+    "lists, and tag templates that walk lists/dicts (reversed, limit/offset, tablerow, render/include for/with), sync and "
+    "async, data snapshot unchanged (exhaustive over the filter register). Non-trivial: the history contains a render that shares the probe's template, environment or a "
     "Python-equal argument (history), a hit on a non-identical key or an eviction (memo), a successful non-empty render "
     "(purity)."
 )
@@ -480,6 +482,84 @@ class PurityStream(Stream):
             yield d
 
 
+PURITY_DATA = {
+    "l": [{"a": 3, "t": "x"}, {"a": 1, "t": "y"}, {"a": 2, "t": None}],
+    "nums": [3, 1, 2, 1],
+    "strs": ["b", "a", "c"],
+    "nested": [[2, 1], [4, 3], "z"],
+    "mixed": [3, None, "a", False],
+    "s": "b,a,c",
+    "d": {"k": [2, 1], "a": 1},
+    "n": 2,
+}
+PURITY_ARGS = [[], ["'a'"], ["1"], ["'a'", "1"], ["1", "2"], ["nums"], ["'x'", "'y'"], ["'c'", "'x'", "'y'", "1"]]
+PURITY_TAGS = [
+    "{% for i in nums reversed %}{{ i }}{% endfor %}{% for i in nums limit: 2 offset: 1 %}{{ i }}{% endfor %}",
+    "{% for i in l reversed limit: 2 %}{{ i.a }}{% endfor %}{% for i in d %}{{ i[0] }}{% endfor %}",
+    "{% tablerow i in nums cols: 2 %}{{ i }}{% endtablerow %}{% tablerow i in l limit: 2 %}{{ i.a }}{% endtablerow %}",
+    "{% assign x = nums %}{% assign y = x | reverse %}{{ x | join: ',' }}{{ y | sort | join: ',' }}",
+    "{% assign x = l | map: 'a' | sort %}{{ x | first }}{% capture c %}{{ nums | sort | reverse | join: '-' }}{% endcapture %}{{ c }}",
+    "{% cycle nums[0], nums[1] %}{% case nums %}{% when l %}a{% else %}b{% endcase %}{% if nums contains 1 %}y{% endif %}",
+    "{% render 'p' for nums as q %}{% render 'p' with l as q %}{% include 'p' for strs as q %}{% include 'p', q: d %}",
+    "{% increment n %}{% decrement n %}{{ n }}{% assign n = 5 %}{{ n }}{% assign d = 1 %}{% assign l = nil %}{{ l }}",
+    "{% liquid\n assign z = nested | first | reverse\n echo z\n for q in nested reversed\n echo q\n endfor\n%}",
+]
+
+
+class PurityFilterStream(Stream):
+    """Every registered filter (default + extra) applied to every input shape, plus tags that walk data:
+    the data passed in must be unchanged."""
+
+    name = "purity_filters"
+    has_model = False
+    exhaustive = True
+    parallel = True
+
+    def cases(self, ctx):
+        from liquid import Environment
+
+        env = Environment(extra=True)
+        out = []
+        for name in sorted(env.filters):
+            for var in PURITY_DATA:
+                for args in PURITY_ARGS:
+                    out.append({"tpl": "{{ " + var + " | " + name + (": " + ", ".join(args) if args else "") + " }}"
+                                       "{% assign r = " + var + " | " + name + (": " + ", ".join(args) if args else "") + " %}{{ r | size }}", "what": "filter:" + name})
+        out += [{"tpl": t, "what": "tag"} for t in PURITY_TAGS]
+        return out
+
+    def impl(self, case):
+        from ..impl.render import run_async
+
+        prog = {"extra": True, "partials": {"p": "[{{ q }}{{ q | size }}]"}, "flags": {}, "autoescape": False}
+        data = copy.deepcopy(PURITY_DATA)
+        data["alias"] = data["nums"]
+        before = snapshot(data)
+        p = outcome(lambda: make_env(prog).from_string(case["tpl"]))
+        if "err" in p:
+            return {"ran": False, "data_same": True, "ok": False}
+        tpl = p["ok"]
+        o1 = outcome(lambda: tpl.render(**data))
+        same1 = snapshot(data) == before
+        o2 = outcome(lambda: run_async(lambda: tpl.render_async(**data)))
+        same2 = snapshot(data) == before
+        return {"ran": True, "data_same": same1 and same2, "ok": "ok" in o1, "sync_async_same": _same(o1, o2)}
+
+    def oracle(self, case, obs):
+        if not obs["data_same"]:
+            return (f"purity|data-modified|{case['what']}", f"{case['tpl']} changed the data passed to render()")
+        return None
+
+    def nontrivial(self, case, obs):
+        return bool(obs.get("ok"))
+
+    def tags(self, case, obs):
+        return ["tag" if case["what"] == "tag" else "filter", "ok" if obs.get("ok") else "error"]
+
+    def shrink_candidates(self, case):
+        return []
+
+
 def _same(a, b):
     if "ok" in a and "ok" in b:
         return a["ok"] == b["ok"]
@@ -487,4 +567,4 @@ def _same(a, b):
 
 
 def streams(ctx):
-    return [MemoStream(), HistoryStream(), PurityStream()]
+    return [MemoStream(), HistoryStream(), PurityStream(), PurityFilterStream()]
